@@ -339,7 +339,7 @@ func TestCheck(t *testing.T) {
 	}
 	n := 48
 	if drv.Thorough() {
-		n = 500
+		n = 250
 	}
 	progs := make([]Program, n)
 	for i := range progs {
